@@ -2,9 +2,14 @@ package wit
 
 import (
 	"fmt"
+	"go/ast"
+	"go/parser"
+	"go/token"
 	"os"
 	"os/exec"
 	"path/filepath"
+	"reflect"
+	"strconv"
 	"strings"
 )
 
@@ -124,6 +129,50 @@ func init() {
 		}
 		if !strings.Contains(out, "json:\"b,\"") || !strings.Contains(out, "xml:\"b\"") {
 			return fmt.Errorf("the tags of B were not kept as they were:\n%s", out)
+		}
+		return nil
+	}})
+}
+
+func init() {
+	All = append(All, W{ID: "D31", Property: "C20", What: "plenctag panics (nil *structtag.Tags) on a struct tag that holds nothing but spaces", Run: func() error {
+		src := "package x\n\ntype T struct {\n\tA int ` `\n\tB string \"  \"\n\tC bool\n}\n"
+		out, stderr, code, err := runPlenctag(src)
+		if err != nil {
+			return err
+		}
+		if code != 0 {
+			return fmt.Errorf("exit %d: %s", code, firstLine(stderr))
+		}
+		for _, want := range []string{"plenc:\"1\"", "plenc:\"2\"", "plenc:\"3\""} {
+			if !strings.Contains(out, want) {
+				return fmt.Errorf("no %s in the output:\n%s", want, out)
+			}
+		}
+		return nil
+	}})
+	All = append(All, W{ID: "D32", Property: "C20", What: "plenctag writes the extended tag between backquotes even when the tag (an interpreted string in the source) holds a backquote: the output does not parse", Run: func() error {
+		src := "package x\n\ntype T struct {\n\tA int \"json:\\\"a`b\\\"\"\n\tB string\n}\n"
+		out, stderr, code, err := runPlenctag(src)
+		if err != nil {
+			return err
+		}
+		if code != 0 {
+			return fmt.Errorf("exit %d: %s", code, firstLine(stderr))
+		}
+		f, perr := parser.ParseFile(token.NewFileSet(), "out.go", out, 0)
+		if perr != nil {
+			return fmt.Errorf("the output does not parse: %v\n%s", perr, out)
+		}
+		var tag string
+		ast.Inspect(f, func(n ast.Node) bool {
+			if fl, ok := n.(*ast.Field); ok && len(fl.Names) == 1 && fl.Names[0].Name == "A" && fl.Tag != nil {
+				tag, _ = strconv.Unquote(fl.Tag.Value)
+			}
+			return true
+		})
+		if st := reflect.StructTag(tag); st.Get("json") != "a`b" || st.Get("plenc") != "1" {
+			return fmt.Errorf("field A's tag is %q: want json \"a`b\" kept and plenc \"1\" added", tag)
 		}
 		return nil
 	}})
